@@ -1,6 +1,8 @@
 import sys
 import warnings
 
+from copy import deepcopy
+
 import numpy as np
 import pandas as pd
 
@@ -53,6 +55,11 @@ class Call:
         if not isinstance(other, type(self)):
             return False
         return self.call == other.call
+
+    def __deepcopy__(self, memo):
+        # The evaluation environment may hold objects that cannot be copied (e.g. modules).
+        # A copy only needs the call; type and data are set again by the new owner.
+        return self.__class__(deepcopy(self.call, memo), self.is_response)
 
     def __repr__(self):
         return self.__str__()
